@@ -223,17 +223,18 @@ def execLine (s : Sess) (line : String) : StepOut :=
   let w := s.w
   let H := s.handles
   let B := w.reg.count
-  if cmd == "world" then
+  if cmd == "world" || cmd == "world+" then
+    -- `world+` keeps the dumps taken so far (they are plain data and outlive their world)
     match runP (do let a ← pNat; let b ← pNat; let c ← pNat; pure (a, b, c)) args with
     | some (a, b, c) =>
       if a < 1 then { s := s, lines := ["= panic config"] } else
-      { s := { w := World.init ⟨a, b, c⟩, started := true }, lines := [okLine ""] }
+      { s := { w := World.init ⟨a, b, c⟩, started := true, dumps := if cmd == "world+" then s.dumps else #[] }, lines := [okLine ""] }
     | none => badOp s
   else if !s.started then badOp s
   else if cmd == "reg" then
     match args with
     | [k] => match kindFlags k with
-      | some (r, z) => finish s (w.registerComponent r z) (fun s id => (s, toString id))
+      | some (r, z) => finish s (w.registerComponent r z) (fun s id => (s, s!"{id} rel={b01 (Mask.get s.w.reg.isRel id)} known=1 stable=1"))
       | none => badOp s
     | _ => badOp s
   else if cmd == "resreg" then
